@@ -59,6 +59,15 @@ def random_matching(rng, max_pairs, max_gap):
     return [[a, b] for a, b in zip(rs, qs)], rev
 
 
+def _rerun(case):
+    if "pairs" not in case:          # a record of an end-to-end run: judged as stored
+        return None
+    return {"pairs": case["pairs"], "rev": case["rev"], "hit": run_real(case["pairs"], case["rev"])}
+
+
+REPLAY = ("Trace_Row", "Trace_Row.cfg", lambda c: _rerun(c) or {"pairs": c["rec"]["pairs"], "rev": c["rec"]["ori"] == "-",
+                                                                "hit": c["rec"]["hit"]}, ())
+
 def run(ctx: Ctx):
     quick = ctx.tier == "quick"
     rng = random.Random(ctx.seed * 104729 + 3)
